@@ -293,6 +293,11 @@ pub fn run_c12(ctx: &Ctx, rng: &mut Rng, tier: Tier, bin: &str) -> Outcome {
     }
     pool.push(vec!["".into(), "a".into()]);
     pool.push(vec!["a".into(), "".into(), "b".into()]);
+    // test cases that look like command-line syntax: behind `--` every argument is a test case, and a hyphen means "read standard
+    // input" only when it is the single argument; on the other channels they are ordinary lines
+    let hyphen: Vec<Vec<String>> = [vec!["-", "a", "b"], vec!["a", "-"], vec!["-", "-x-", "-x-x-"], vec!["-", "-"], vec!["--"], vec!["--", "a"],
+        vec!["-f"], vec!["-f", "-"], vec!["-r", "aa"], vec!["--help"], vec!["-h", "-V"], vec!["--digits", "1"], vec!["-", ""], vec!["a", "-", "b"]]
+        .iter().map(|l| l.iter().map(|t| t.to_string()).collect()).collect();
     let all_bits: Vec<u32> = (0..15).collect();
     let flags = gen::flag_rows(rng, &all_bits);
     #[derive(Clone)]
@@ -325,6 +330,17 @@ pub fn run_c12(ctx: &Ctx, rng: &mut Rng, tier: Tier, bin: &str) -> Outcome {
             }
         }
     }
+    for (k, t) in hyphen.iter().enumerate() {
+        for channel in 0..4usize {
+            for (j, fl) in [0u32, mask(&[BIT_REP]), mask(&[BIT_DIGIT, BIT_NO_START])].iter().enumerate() {
+                jobs.push(Job { case: Case { tcs: t.clone(), cfg: Cfg::new(*fl) }, channel, crlf: (k + j) % 2 == 0, final_nl: (k + channel) % 2 == 0, short: j % 2 == 0 });
+                // the argument channel twice: once with nothing on standard input, once with unrelated lines (job index parity)
+                if channel == 0 {
+                    jobs.push(Job { case: Case { tcs: t.clone(), cfg: Cfg::new(*fl) }, channel, crlf: false, final_nl: true, short: j % 2 == 1 });
+                }
+            }
+        }
+    }
     let dirs = dir.clone();
     let results: Vec<(Vec<Fail>, bool)> = par_map(&(0..jobs.len()).collect::<Vec<_>>(), ctx.threads, |i| {
         let job = &jobs[*i];
@@ -345,7 +361,8 @@ pub fn run_c12(ctx: &Ctx, rng: &mut Rng, tier: Tier, bin: &str) -> Outcome {
         let mut args = cli_flags(case.cfg, job.short);
         let file = dirs.join(format!("in_{}.txt", i));
         let run = match job.channel {
-            0 => { let mut a = args.clone(); a.push("--".into()); a.extend(tcs.iter().cloned()); run_cli(bin, &a, None) }
+            // standard input carries unrelated lines: with test cases among the arguments it must not be read
+            0 => { let mut a = args.clone(); a.push("--".into()); a.extend(tcs.iter().cloned()); run_cli(bin, &a, if *i % 2 == 0 { None } else { Some(b"unrelated\nlines\n") }) }
             1 => { std::fs::write(&file, &content).unwrap(); args.push("-f".into()); args.push(file.to_string_lossy().to_string()); run_cli(bin, &args, None) }
             2 => { args.push("-".into()); run_cli(bin, &args, Some(content.as_bytes())) }
             _ => { std::fs::write(&file, &content).unwrap(); args.push("-f".into()); args.push("-".into()); run_cli(bin, &args, Some(format!("{}\n", file.to_string_lossy()).as_bytes())) }
